@@ -109,8 +109,9 @@ func writeUnionClasses(w *formatting.IndentedWriter, td dsl.TypeDefinition, unio
 			if node.Cases.IsUnion() {
 				unionClassName, typeParameters := common.UnionClassName(node)
 				if _, ok := unions[unionClassName]; !ok {
-					if _, isNamedType := td.(*dsl.NamedType); isNamedType {
+					if nt, isNamedType := td.(*dsl.NamedType); isNamedType && nt.Type == dsl.Type(node) {
 						// This is a named type defining a union, so we will use the named type's name instead
+						// (a union nested somewhere inside the named type keeps its own name)
 						unionClassName = td.GetDefinitionMeta().Name
 					}
 					if len(unions) == 0 {
@@ -1012,6 +1013,10 @@ func writeGetDTypeFunc(w *formatting.IndentedWriter, ns *dsl.Namespace) {
 					if node.Cases.IsUnion() {
 						unionClassName, _ := common.UnionClassName(node)
 						nt, isNamedType := td.(*dsl.NamedType)
+						if isNamedType && nt.Type != dsl.Type(node) {
+							// a union nested somewhere inside the named type keeps its own name
+							isNamedType = false
+						}
 						if isNamedType {
 							// This is a named type defining a union, so we will use the named type's name instead
 							unionClassName = td.GetDefinitionMeta().Name
